@@ -583,6 +583,8 @@ def zero_test(si, what):
     """If the bool switch `si` decides `what == 0` (unsigned), return the truth value of its edge on which what == 0:
     `x == 0` -> True, `x != 0` / `x > 0` / `0 < x` -> False, `x <= 0` / `x < 1` -> True, `x >= 1` -> False."""
     if not si.is_bool:
+        # `match x { 0 => .., _ => .. }`: a switch on the integer itself with an arm for 0; report the edge by its target
+        # through the sentinel label 0 (callers use zero_target / nonzero_target below)
         return None
     nf = cmp_nf(si.discr, True)
     if not nf:
@@ -631,3 +633,19 @@ def path_condition(fn, block, depth=5):
         elif not si.is_bool:
             out.append(("inset", deep_strip(fn.expr(fn.term(sb)["discr"])), tuple(sorted(str(x) for x in labs))))
     return out
+
+
+def zero_edges(si, what):
+    """(target on which `what` == 0, target on which it is != 0) if switch `si` decides that, for either spelling:
+    a boolean comparison recognised by zero_test, or a match on the integer itself with an arm for 0 and a catch-all"""
+    if si.is_bool:
+        z = zero_test(si, what)
+        if z is None:
+            return None
+        return si.target_of(z), si.target_of(not z)
+    if deep_strip(si.discr) == what:
+        arms = [(v, t) for v, t in si.edges if v != "otherwise"]
+        oth = [t for v, t in si.edges if v == "otherwise"]
+        if len(arms) == 1 and arms[0][0] == 0 and len(oth) == 1:
+            return arms[0][1], oth[0]
+    return None
